@@ -1,46 +1,113 @@
-(* C01 -- parsing is total.  Termination half: the model's OutOfFuel value (a loop of the Rust
-   source that does not finish, or entity recursion deeper than the level fuel) is unreachable
-   on valid UTF-8 input -- every loop iteration consumes input and the loop detector bounds the
-   entity nesting.  Statements pinned here; proofs in Proofs/Term*.v.
-   (On byte strings that are not valid UTF-8 the model can loop: termination_needs_valid_utf8;
-   a Rust &str is always valid UTF-8.) *)
-From Coq Require Import List NArith.
+(* C01 -- parsing is total.
+   Termination: the model's OutOfFuel value (a loop of the Rust source that does not finish, or entity
+   recursion deeper than the level fuel) is unreachable on valid UTF-8 input: every loop iteration consumes
+   input and the loop detector bounds the entity nesting.  (On byte strings that are not valid UTF-8 the
+   model can loop: termination_needs_valid_utf8; a Rust &str is always valid UTF-8.)
+   No panic: the tokenizer reaches none of its panic sites (slicing, indexing, advance, unwrap) on valid
+   UTF-8, with any callback that does not panic itself; the real callback preserves the builder invariant
+   Core and can only reach the debug_assert of ShortRange::from in resolve_namespaces (tree_order longer
+   than u32::MAX), see DESIGN.md D17.
+   Statements are pinned here (copied verbatim from the proof files by tools/pin_props.py);
+   each is re-proved by `exact` and followed by Print Assumptions. *)
+From Coq Require Import Ascii String.
+From Coq Require Import List NArith Bool PeanoNat Sorted.
 Import ListNotations.
-From RX.Model Require Import Base Stream Tokenizer Doc Builder Parse.
-From RX.Proofs Require Import TermStream TermUtf8 TermParse.
+From RX Require Import Generated.
+From RX.Model Require Import Base CharClass Stream Tokenizer Doc Builder Parse Api.
+From RX.Proofs Require Import TermStream TermUtf8 TermParse NoPanicUtf8 NoPanicStream NoPanicTokenizer NoPanicBuilder NoPanicBuilderCtx NoPanicText NoPanicParse.
 Open Scope N_scope.
 
+(* ---- Proofs/TermParse.v ---- *)
 Theorem C01_tokenizer_terminates :
   forall (text : bytes) (C : Type) (ev : Tokenizer.token -> C -> res C) (dtd : bool) (c : C),
   valid_utf8_b text = true ->
-  (forall (tok : Tokenizer.token) (c0 : C), ev tok c0 <> OutOfFuel) ->
+  (forall tok c0, ev tok c0 <> OutOfFuel) ->
   parse_document text C ev dtd c <> OutOfFuel.
 Proof. exact tokenizer_terminates. Qed.
 Print Assumptions C01_tokenizer_terminates.
 
 Theorem C01_token_terminates :
-  forall (text : bytes) (tok : Tokenizer.token) (c : context),
-  valid_utf8_b text = true -> ld_depth (c_ld c) = 0 -> Parse.token text tok c <> OutOfFuel.
+  forall text tok c,
+  valid_utf8_b text = true ->
+  ld_depth (c_ld c) = 0 -> token text tok c <> OutOfFuel.
 Proof. exact token_terminates. Qed.
 Print Assumptions C01_token_terminates.
 
 Theorem C01_token_preserves_depth0 :
-  forall (text : bytes) (tok : Tokenizer.token) (c c' : context),
-  valid_utf8_b text = true -> ld_depth (c_ld c) = 0 ->
-  Parse.token text tok c = Ok c' -> ld_depth (c_ld c') = 0.
+  forall text tok c c',
+  valid_utf8_b text = true ->
+  ld_depth (c_ld c) = 0 -> token text tok c = Ok c' -> ld_depth (c_ld c') = 0.
 Proof. exact token_preserves_depth0. Qed.
 Print Assumptions C01_token_preserves_depth0.
 
 Theorem C01_parse_document_terminates :
-  forall (text : bytes) (opt : options) (c : context),
-  valid_utf8_b text = true -> init_context text opt = Ok c ->
-  parse_document text context (Parse.token text) (allow_dtd opt) c <> OutOfFuel.
+  forall text opt c,
+  valid_utf8_b text = true ->
+  init_context text opt = Ok c ->
+  parse_document text context (token text) (allow_dtd opt) c <> OutOfFuel.
 Proof. exact parse_document_terminates. Qed.
 Print Assumptions C01_parse_document_terminates.
 
+(* ---- Proofs/TermUtf8.v ---- *)
+Module G1.
+Local Notation safe := TermStream.safe.
 Theorem C01_termination_needs_valid_utf8 :
-  valid_utf8_b overlong_lt_text = false /\ ~ safe overlong_lt_text /\
-  parse_document overlong_lt_text unit (fun (_ : Tokenizer.token) (c : unit) => Ok c) false tt = OutOfFuel /\
+  valid_utf8_b overlong_lt_text = false /\
+  ~ safe overlong_lt_text /\
+  parse_document overlong_lt_text unit (fun _ c => Ok c) false tt = OutOfFuel /\
   parse_default overlong_lt_text = OutOfFuel.
 Proof. exact termination_needs_valid_utf8. Qed.
 Print Assumptions C01_termination_needs_valid_utf8.
+
+End G1.
+
+(* ---- Proofs/NoPanicTokenizer.v ---- *)
+Module G2.
+Local Notation token := Tokenizer.token.
+Theorem C01_tokenizer_no_panic :
+  forall (text : bytes) (C : Type) (ev : token -> C -> res C) (dtd : bool) (c : C) p,
+  valid_utf8_b text = true ->
+  (forall tok c0 q, ev tok c0 <> Panic q) ->
+  parse_document text C ev dtd c <> Panic p.
+Proof. exact tokenizer_no_panic. Qed.
+Print Assumptions C01_tokenizer_no_panic.
+
+End G2.
+
+(* ---- Proofs/NoPanicParse.v ---- *)
+Module G3.
+Local Notation TokOk := NoPanicTokenizer.TokOk.
+Theorem C01_token_panic_only_debug_assert :
+  forall text tok c p,
+  valid_utf8_b text = true -> Core text c -> TokOk text tok -> (tok_pre tok = true -> InTag c) ->
+  token text tok c = Panic p -> p = P_debug_assert.
+Proof. exact token_panic_only_debug_assert. Qed.
+Print Assumptions C01_token_panic_only_debug_assert.
+
+Theorem C01_token_preserves_core :
+  forall text tok c c',
+  valid_utf8_b text = true -> Core text c -> TokOk text tok -> (tok_pre tok = true -> InTag c) ->
+  token text tok c = Ok c' -> Core text c' /\ TagPost tok c c'.
+Proof. exact token_preserves_core. Qed.
+Print Assumptions C01_token_preserves_core.
+
+Theorem C01_parse_document_token_panic_only_debug_assert :
+  forall text opt c0 p,
+  valid_utf8_b text = true -> nodes_limit opt <= u32_max -> init_context text opt = Ok c0 ->
+  parse_document text context (token text) (allow_dtd opt) c0 = Panic p -> p = P_debug_assert.
+Proof. exact parse_document_token_panic_only_debug_assert. Qed.
+Print Assumptions C01_parse_document_token_panic_only_debug_assert.
+
+End G3.
+
+(* ---- Proofs/NoPanicParse.v ---- *)
+Theorem C01_token_no_panic_partial :
+  forall text tok c p, valid_utf8_b text = true -> CtxInv text c -> TokOk text tok -> token text tok c <> Panic p.
+Proof. exact token_no_panic_partial. Qed.
+Print Assumptions C01_token_no_panic_partial.
+
+Theorem C01_token_preserves_CtxInv :
+  forall text tok c c', valid_utf8_b text = true -> CtxInv text c -> TokOk text tok ->
+  token text tok c = Ok c' -> Core text c' /\ InTag c'.
+Proof. exact token_preserves_CtxInv. Qed.
+Print Assumptions C01_token_preserves_CtxInv.
